@@ -33,7 +33,7 @@ MANDATORY = {
     "OFFSET": ("0.000", "-0.125"),
     # ... a BPM of eight integer digits, and a one-line list of 90 changes (about 1200 characters)
     "BPMS": ("0.000=120.000", "0.000=120.000,\n4.000=60.000", "0.000=10000000.000,\n4.000=0.001", X.comma_list(90)),
-    "STOPS": ("", "2.000=0.500,\n6.000=0.250"),
+    "STOPS": ("", "2.000=0.500,\n6.000=0.250", " ", "\n"),
 }
 CHARTS = {
     "blank": None,
@@ -293,7 +293,7 @@ def explore_shard(acc, shard):
         n = len(OPTIONAL)
 
         def visit(opt_idx):
-            mands = (list(itertools.product((0, 1), repeat=3)) + [(0, 2, 0), (1, 3, 1)]) if len(opt_idx) <= 1 else [(0, 0, 0), (1, 1, 1)]
+            mands = (list(itertools.product((0, 1), repeat=3)) + [(0, 2, 0), (1, 3, 1), (0, 0, 2), (1, 1, 3)]) if len(opt_idx) <= 1 else [(0, 0, 0), (1, 1, 1)]
             pairs = template_pairs("full" if len(opt_idx) <= (2 if thorough else 1) else "reduced")
             lists = CHART_LISTS if len(opt_idx) <= 2 else CHART_LISTS[:4]
             acc.count("states")
